@@ -22,9 +22,16 @@ def one(arg):
         shutil.copytree("/repo/amaranth_soc", os.path.join(t, "amaranth_soc"))
         r = subprocess.run(f"patch -p1 -s --dry-run < {d}/patch.diff", shell=True, cwd=t, capture_output=True)
         if r.returncode != 0:
-            # written against the tree before the fix: commits; apply to that tree instead
-            shutil.rmtree(os.path.join(t, "amaranth_soc"))
-            subprocess.run(f"git -C /repo archive 529901f amaranth_soc | tar -x -C {t}", shell=True, check=True)
+            # written against an earlier tree (before some fix: commits): walk back until the patch applies
+            for commit in subprocess.run("git -C /repo log --format=%h", shell=True, capture_output=True,
+                                         text=True).stdout.split()[1:]:
+                shutil.rmtree(os.path.join(t, "amaranth_soc"))
+                subprocess.run(f"git -C /repo archive {commit} amaranth_soc | tar -x -C {t}", shell=True, check=True)
+                r = subprocess.run(f"patch -p1 -s --dry-run < {d}/patch.diff", shell=True, cwd=t, capture_output=True)
+                if r.returncode == 0:
+                    break
+            else:
+                return name, seed, "patch does not apply to any tree"
         subprocess.run(f"patch -p1 -s < {d}/patch.diff", shell=True, cwd=t, check=True)
         p = subprocess.run(["./check", prop, "--tier", "quick"], cwd=VERIF,
                            env={**os.environ, "VERIF_REPO": t, "VERIF_SEED": str(seed)}, capture_output=True, text=True)
